@@ -107,10 +107,11 @@ theorem SyncedAt.write_beyond (h : Hdr) (rds : List RawDesc) (buf : Bytes) (S : 
 theorem Synced.load (s : Img) (S : Synced s) (hv : s.h.Valid) (hm : s.h.magic = hdrMagic)
     (hver : s.h.version = curVersion) (ht : s.h.dtotal = s.rds.length) (hd : 0 ≤ s.h.doff)
     (hs : (585 * s.rds.length : Int) ≤ s.h.dsize)
-    (dv : ∀ d ∈ s.rds, d.Valid) (dl : ∀ d ∈ s.rds, loadable d = true) :
+    (dv : ∀ d ∈ s.rds, d.Valid) (dl : ∀ d ∈ s.rds, loadable d = true)
+    (nov : s.h.doff + s.h.dsize ≤ maxI64) :
     loadContainer s.st =
       .ok { h := s.h, rds := s.rds, minIDs := populateMinIDs s.rds, st := s.st } :=
   loadContainer_ok s.st s.h s.rds
-    ⟨hv, hm, hver, ht, hd, hs, S.hlen, S.hhdr, S.tlen, S.htab, dv, dl⟩
+    ⟨hv, hm, hver, ht, hd, hs, S.hlen, S.hhdr, S.tlen, S.htab, dv, dl, nov⟩
 
 end Sif
